@@ -490,6 +490,7 @@ func (w *World) Tables(tx *types.Transaction, extra []*Key, hashCoq string) (coq
 				}
 			} else {
 				hx.Recover(func() { addH(program.ProgramFromPubKey(k.Pub)) })
+				hx.Recover(func() { addH(SpecSingleScript(k)) })
 			}
 		} else {
 			var pubs []keypair.PublicKey
@@ -499,6 +500,9 @@ func (w *World) Tables(tx *types.Transaction, extra []*Key, hashCoq string) (coq
 			hx.Recover(func() {
 				if prog, err := program.ProgramFromMultiPubKey(pubs, v.M); err == nil {
 					addH(prog)
+				}
+				if 1 <= v.M && v.M <= len(v.Keys) && len(v.Keys) <= 16 {
+					addH(SpecMultiScript(v.M, v.Keys)) // the standard script (equal to the builder's on an unchanged tree)
 				}
 			})
 		}
